@@ -593,6 +593,7 @@ func c01ParseCheck(e *Env, p *N, src string) {
 	}
 	var pend []pending
 	var reqs []string
+	var bridgeSrcs, bridgeToks []string // the lexer model + adapter of C20/Bridge.lean on the same texts
 	for _, c := range cases {
 		key := c.src // the same text is the same case whatever its origin
 		if st.seen[key] {
@@ -615,11 +616,16 @@ func c01ParseCheck(e *Env, p *N, src string) {
 		}
 		pend = append(pend, pending{c: c, real: c01parseReal(c.src), nTok: nTok, sexp: sexp})
 		reqs = append(reqs, "C01\tpratt\tcheck\t"+cleanField(toks)+"\t"+treeField)
+		bridgeSrcs = append(bridgeSrcs, c.src)
+		bridgeToks = append(bridgeToks, toks)
 	}
 	if len(reqs) == 0 {
 		return
 	}
 	reps := e.O.AskBatch(reqs)
+	// the tokens the Pratt model is run on are the conversion of the REAL lexer's tokens; the adapter
+	// `toToken` of C20/Bridge.lean (theorem parse_lex_renderSrc) must be that same conversion
+	c20bridgeAdapter(e, bridgeSrcs, bridgeToks, "parser stream")
 	for i, pd := range pend {
 		c := pd.c
 		f := strings.Split(reps[i], "\t")
